@@ -24,6 +24,19 @@ def parent(p):
     return par if par else '/'
 
 
+def lexical_norm(p):
+    out = []
+    for c in p.split('/'):
+        if c in ('', '.'):
+            continue
+        if c == '..':
+            if out:
+                out.pop()
+        else:
+            out.append(c)
+    return '/' + '/'.join(out)
+
+
 class VfsWorld:
     def __init__(self, paths, nchunks=1, state_files=(), always_dirs=('/',), cmds=(), links=None):
         self.links = dict(links or {})       # link path -> path it points to (the link exists iff its kind is LINK; targets are not links themselves)
@@ -86,6 +99,8 @@ class VfsWorld:
         return None
 
     def kind(self, p):
+        if '/..' in p or '/./' in p or p.endswith('/.'):
+            p = lexical_norm(p)        # the kernel resolves . and .. while walking (no symlinked directories on such spellings here)
         tl = self.through_link(p)
         if tl is not None:
             l, real = tl
